@@ -247,6 +247,19 @@ fn deliver_corrupted(cx: &mut Cx, s: u64, f: Presentation, l: usize, issuer: Nod
         g.didx = Some(a); g.dmsgs = Some(b);
         deliver(cx, verifier, g, "pair_duplicated".into(), ideal.clone());
     }
+    if r >= 1 {
+        // a second, different message claimed for an index that is already disclosed -- after and
+        // before the genuine pair (a verifier that de-duplicates by index must not silently drop it)
+        let i = cx.ch.choose("pair_conflict", r as u64) as usize;
+        for before in [false, true] {
+            let mut g = f.clone();
+            let (mut a, mut b) = (g.didx.take().unwrap(), g.dmsgs.take().unwrap());
+            let forged = bytes_for(cx.run_seed, b"conflict", s, 6);
+            if before { a.insert(i, a[i]); b.insert(i, forged); } else { a.insert(i + 1, a[i]); b.insert(i + 1, forged); }
+            g.didx = Some(a); g.dmsgs = Some(b);
+            deliver(cx, verifier, g, format!("pair_conflicting_duplicate:{}", if before { "before" } else { "after" }), ideal.clone());
+        }
+    }
     {
         // claim one more disclosed message at an undisclosed / out-of-range position
         let mut g = f.clone();
